@@ -6,7 +6,7 @@ From PV Require Import proofs.SccWriteFacts proofs.SccWrapFacts proofs.SccWordsF
      proofs.SccLayoutFacts proofs.SccTimingFacts model.SccRoundTrip model.SccDecoder proofs.SccDocFacts proofs.SccComposeFacts
      proofs.SccRoundTripFacts proofs.SccwBridgeFacts.
 From PV Require Import model.SccStash model.SccTime.
-From PV Require proofs.SccRereadNodes proofs.SccRereadLoad proofs.SccRereadTime proofs.SccRereadDoc.
+From PV Require proofs.SccRereadNodes proofs.SccRereadLoad proofs.SccRereadTime proofs.SccRereadDoc model.SccRereadDom proofs.SccRereadDomFacts.
 Import ListNotations.
 Open Scope Q_scope.
 
@@ -273,6 +273,17 @@ Theorem C17_reread_refusals_partial : forall caps, SccRereadDoc.caps_ok caps -> 
 Proof. exact SccRereadDoc.reread_refusals. Qed.
 Print Assumptions C17_reread_refusals_partial.
 
+(* the decidable domain predicate the harness evaluates on every generated case (request 1706) implies the hypothesis of
+   the theorems above; on it the reader model's answer to the writer model's document is captions or one of the two
+   final refusals - never a decoder error, never 'no captions' *)
+Theorem C17_domain_predicate_sound : forall caps, SccRereadDom.caps_ok_b caps = true -> SccRereadDoc.caps_ok caps.
+Proof. exact SccRereadDomFacts.caps_ok_b_sound. Qed.
+Print Assumptions C17_domain_predicate_sound.
+Theorem C17_reread_class_on_domain_partial : forall caps, SccRereadDom.caps_ok_b caps = true -> caps <> [] ->
+  SccRereadDom.reread_class caps = 0%Z \/ SccRereadDom.reread_class caps = 1%Z \/ SccRereadDom.reread_class caps = 2%Z.
+Proof. exact SccRereadDomFacts.reread_class_on_domain. Qed.
+Print Assumptions C17_reread_class_on_domain_partial.
+
 (* ---- non-vacuity ---------------------------------------------------------------------------------------- *)
 Example C17_example_wrap :
   wrap 32 (lit "aaaaaaaaaa bbbbbbbbbb cccccccc-dddddddddd eee")
@@ -317,9 +328,9 @@ Proof. vm_compute. split; [discriminate|reflexivity]. Qed.
 (* the domain of the wave-7 re-read theorems is inhabited, and on it the reader model does return captions *)
 Example C17_example_reread :
   let caps := [mkWcap (lit "ab") (10000000 # 1) (12000000 # 1); mkWcap (lit "cd  ef") (12000000 # 1) (13000000 # 1)] in
-  SccRereadDoc.caps_ok caps /\ (exists o, reread_obs caps = Some o) /\ roundtrip_ok caps = true.
+  SccRereadDoc.caps_ok caps /\ SccRereadDom.caps_ok_b caps = true /\ (exists o, reread_obs caps = Some o) /\ roundtrip_ok caps = true.
 Proof.
-  split; [|split; [eexists; vm_compute; reflexivity|vm_compute; reflexivity]].
+  split; [|split; [vm_compute; reflexivity|split; [eexists; vm_compute; reflexivity|vm_compute; reflexivity]]].
   split; [repeat constructor|split; [vm_compute; intuition discriminate|split]].
   - repeat constructor; vm_compute; discriminate.
   - repeat constructor.
